@@ -28,3 +28,56 @@ package avc
 
 //@ func ConvertSampleToByteStream
 //@   requires len(sample) < 1<<32
+
+//@ axiom ErrNotSPS != nil
+//@ axiom ErrNotPPS != nil
+//@ axiom ErrNoSliceHeader != nil
+//@ axiom ErrLengthSize != nil
+//@ axiom ErrCannotParseAVCExtension != nil
+//@ axiom ErrNotSEINalu != nil
+
+//@ func ParseSPSNALUnit
+//@   ensures result1 == nil ==> result0 != nil
+
+//@ func readScalingList
+//@   requires erOK(reader) && 0 <= sizeOfScalingList && sizeOfScalingList <= 64
+//@   ensures erOK(reader) && reader.rd == old(reader.rd)
+
+//@ func CodecString
+//@   requires sps != nil
+
+//@ func extractSlice
+//@   requires 0 <= start && start <= stop && stop <= len(data)
+//@   ensures len(result) == stop - start && fresh(result)
+//@   assigns nothing
+
+// Annex B scanners: once a start code is found at i, the unit starts at i+3; the two following positions cannot start
+// another start code because data[i+2] == 1.
+//@ pred scanInv(data []byte, i int, c int, n int) = 0 <= i && n == len(data) && -1 <= c && c <= i+2 && c < n && c != 0 && (c > i ==> c >= 3 && data[c-1] == 1)
+
+//@ func ExtractNalusFromByteStream
+//@   loop 1 invariant scanInv(data, i, currNaluStart, n) && i <= n
+//@   loop 2 invariant scanInv(data, i, currNaluStart, n) && i < n-3 && 0 < currNaluStart && currNaluStart <= i && currNaluStart <= j+1 && j < i && currNaluStart <= currNaluEnd && currNaluEnd <= i
+//@   loop 2 decreases j
+
+//@ func ExtractNalusOfTypeFromByteStream
+//@   loop 1 invariant scanInv(data, i, currNaluStart, n) && i <= n
+//@   loop 2 invariant scanInv(data, i, currNaluStart, n) && i < n-3 && 0 < currNaluStart && currNaluStart <= i && currNaluStart <= j+1 && j < i && currNaluStart <= currNaluEnd && currNaluEnd <= i
+//@   loop 2 decreases j
+
+//@ func GetFirstAVCVideoNALUFromByteStream
+//@   loop 1 invariant scanInv(data, i, currNaluStart, n) && i <= n && naluStart == 0 && naluEnd == 0
+//@   loop 2 invariant scanInv(data, i, currNaluStart, n) && i < n-3 && 0 < currNaluStart && currNaluStart <= i && currNaluStart <= j+1 && j < i && currNaluStart <= currNaluEnd && currNaluEnd <= i
+//@   loop 2 decreases j
+
+//@ func GetParameterSetsFromByteStream
+//@   loop 1 invariant scanInv(data, i, currNaluStart, n) && i <= n && 0 <= totSize && totSize <= i
+//@   loop 1 invariant forall k int :: 0 <= k && k < len(spss) ==> 0 <= len(spss[k])
+//@   loop 2 invariant scanInv(data, i, currNaluStart, n) && i < n-4 && 0 < currNaluStart && currNaluStart <= i && currNaluStart <= j+1 && j < i && currNaluStart <= currNaluEnd && currNaluEnd <= i
+//@   loop 2 decreases j
+
+// Termination of the "read until the terminating code or an error" loops: every iteration consumes at least one bit.
+//@ func ParseSliceHeader
+//@   loop 1 decreases ghost(r.rd).rlen - ghost(r.rd).rpos, r.n
+//@   loop 2 decreases ghost(r.rd).rlen - ghost(r.rd).rpos, r.n
+//@   loop 7 decreases ghost(r.rd).rlen - ghost(r.rd).rpos, r.n
